@@ -1,5 +1,6 @@
 #!/bin/bash
-# developer helper: refresh _CoqProject/Makefile and build the given targets (default: all)
-cd /verif/coq && rm -f Makefile Makefile.conf && /venv/bin/python -c "
-import sys; sys.path.insert(0,'/verif/harness'); import common; common.coq_project()" 2>&1 | grep -v conda
+# developer helper: regenerate coq/generated from /repo, refresh _CoqProject/Makefile, build targets (default: all)
+HERE="$(dirname "$(readlink -f "$0")")"
+cd "$HERE/../coq" && rm -f Makefile Makefile.conf && PYTHONHASHSEED=0 PYTHONPATH="$HERE:${VERIF_REPO:-/repo}/src" /venv/bin/python -W ignore -c "
+import common, translate; print(translate.regenerate()); common.coq_project()" 2>&1 | grep -v conda | grep -v "'ok'" 
 make -j16 --no-print-directory "$@" 2>&1 | grep -v "^COQDEP\|^COQC" 
